@@ -10,7 +10,7 @@
                                      payload -- the whole of it, in one step -- to the output queue.  Nothing else
                                      ever enters the queue; the output stream shows the head of the queue.
      3. is_env                       the environment assumption (what an EndpointInterface guarantees)
-     4. iso_delivered / iso_accepted stream-level reading of a run of the specification (for the corollaries)
+     4. is_delivered / is_accepted   stream-level reading of a run of the specification (for the corollaries)
      5. io_state / io_next / io_outf the code-shaped MODEL: boundary-detector model (C28) + glue + FIFO model (C18)
      6. packing                      for the lock-step tie against the regenerated netlist
 
